@@ -71,6 +71,30 @@ def run_both(lines):
     return go, lean
 
 
+def float_text_instances(ctx, cases, which="g"):
+    """The protocol-0 float-text hypothesis of the round-trip theorems (ParseFloat reads %g / repr back), evaluated by the model for
+    every float that occurs in a protocol-0 case of this run: cases = (protocol, rendered value).  With it true - and it is for every
+    float but NaN, whose text carries no payload - the case is an instance of the *_dec theorems, not only a compared input."""
+    fl = {}
+    for p, text in cases:
+        if p == 0:
+            for m in re.finditer(r"D([0-9a-f]{16})", text):
+                fl.setdefault(m.group(1), 0)
+                fl[m.group(1)] += 1
+    keys = sorted(fl)
+    ans = C.run_sharded(C.run_lean, [f"ftok {which} {k}" for k in keys]) if keys else []
+    for k, a in zip(keys, ans):
+        bits = int(k, 16)
+        nan = (bits >> 52) & 0x7ff == 0x7ff and bits & ((1 << 52) - 1) != 0
+        if a == "1":
+            ctx.count("protocol-0 float text hypothesis:holds (distinct floats)")
+        elif nan:
+            ctx.count("protocol-0 float text hypothesis:NaN (the text carries no payload; documented normal form)")
+        else:
+            # the case is then outside the theorem; model and implementation are still compared on it by the caller
+            ctx.count("protocol-0 float text hypothesis:does not hold for " + k)
+
+
 NON_OPCODES = None
 
 
@@ -1197,8 +1221,8 @@ def second_encode_tie(ctx, cases, what):
 
 class C18:
     prop = "C18"
-    lean_module = "Ogorek.Props.C18RT"
-    theorems = ["Ogorek.C18_other_insn_no_call", "Ogorek.C18_handleRef", "Ogorek.C18_persid", "Ogorek.C18_binpersid",
+    lean_module = "Ogorek.Props.C03Dec"
+    theorems = ["Ogorek.C03_roundtrip_hook_dec", "Ogorek.FloatsOK_of_b", "Ogorek.C18_other_insn_no_call", "Ogorek.C18_handleRef", "Ogorek.C18_persid", "Ogorek.C18_binpersid",
                 "Ogorek.C18_one_call", "Ogorek.C18_ref_p0", "Ogorek.C18_ref_bin", "Ogorek.C18_ref_unmapped",
                 "Ogorek.C18_inverse_hooks", "Ogorek.C03_roundtrip_hook", "Ogorek.repU_of_rep"]
     trusted_base = TB_COMMON + ["PersistentRef ids returned by the application do not themselves contain application objects (substitution model)"]
@@ -1212,7 +1236,8 @@ class C18:
                   "the same places and everything else identical in type and content (C18_inverse_hooks; from C03_roundtrip_hook, the "
                   "round-trip theorem generalised to an arbitrary hook, and the substitution lemma repU_of_rep). PARTIAL: ids that are "
                   "not plain strings (tuples holding further mapped objects) and Refs inside dict keys are outside the theorem; at "
-                  "protocol 0 the float-text hypothesis of C03. Tie: instrumented hooks on both sides: call "
+                  "protocol 0 the float-text hypothesis of C03 (decidable per float: C03_roundtrip_hook_dec with floatsOKb, evaluated for "
+                  "the floats of this run's protocol-0 graphs). Tie: instrumented hooks on both sides: call "
                   "sequences, results, and Encode->Decode of object graphs with 0-20 references.")
     level_note = "trusted: Lean kernel + standard axioms; decoder/encoder models; the application hooks are parameters"
     technique = "Lean 4 proof (case analysis over instructions; encoder substitution lemma) + differential correspondence with instrumented hooks"
@@ -1302,6 +1327,7 @@ class C18:
                     lines.append(f"decs {rng.choice(CFGS)} {hook} {hexs(cls + state)}")
                     meta.append(("dec", hook))
         go, lean = run_both(lines)
+        float_text_instances(ctx, [(int(ln.split(" ")[1]), ln) for ln in lines if ln.startswith("enc ")])
         self.run_holders(ctx)
         self.run_nested_ids(ctx)
         rt_lines, rt_meta = [], []
